@@ -15,7 +15,7 @@ _COMMON = (
     "ParseFloat takes the Eisel-Lemire/overflow path (engine fault, see ASSUMPTIONS), wall-clock termination (only the step budget), depths other than those listed, AppendFloat bit sizes.")
 BOUNDS = {
     "quick": _COMMON % ("{10000, 10001}", "0 or 1 (1 only for arrays at a=10000)", "2 (3 over a 24-letter alphabet)", "2"),
-    "thorough": _COMMON % ("9997..10002", "0, 1 or 2", "3 (4 over a 24-letter alphabet)", "3"),
+    "thorough": _COMMON % ("9997..10002 (9998..10002 for values, 10000..10001 with a 1-byte hole, 10000 with a 2-byte hole)", "0, 1 or 2", "3 (4 over a 24-letter alphabet)", "3"),
 }
 ASSUMPTIONS = [
     "reference verdict for a tower = zzspec.ValidText on its innermost level with the limit reduced by the a-1 enclosing levels (every enclosing level wraps exactly one value); "
@@ -46,10 +46,10 @@ def obligations(tier):
         else:
             for d in (False, True):
                 L.append(ob("depth/%s/ops=all/shapes=all/a=9998..10002/inner=0/hole=0/dup=%d/fullref" % (tag, d), P, fn, [-1, -1, 9998, 10002, "0", 0, d, True], step_limit=BIG, covers=cov([0, 1, 2])))
-                L.append(ob("depth/%s/ops=all/shapes=all/a=9999..10001/inner=/hole=1/dup=%d" % (tag, d), P, fn, [-1, -1, 9999, 10001, "", 1, d, False], step_limit=BIG, covers=cov([0, 1, 2], True, True)))
+                L.append(ob("depth/%s/ops=all/shapes=all/a=10000..10001/inner=/hole=1/dup=%d" % (tag, d), P, fn, [-1, -1, 10000, 10001, "", 1, d, False], step_limit=BIG, covers=cov([0, 1, 2], True, True)))
             L.append(ob("depth/%s/ops=all/shape=arr/a=9999..10001/inner=/hole=0/fullref" % tag, P, fn, [-1, 0, 9999, 10001, "", 0, False, True], step_limit=BIG, covers=cov([0])))
-            for sh in (0, 1, 2):
-                L.append(ob("depth/%s/ops=all/shape=%s/a=9999..10000/inner=/hole=2" % (tag, SH[sh]), P, fn, [-1, sh, 9999, 10000, "", 2, False, False], step_limit=BIG, covers=cov([sh], True, True)))
+            for sh in (0, 1):
+                L.append(ob("depth/%s/ops=all/shape=%s/a=10000/inner=/hole=2" % (tag, SH[sh]), P, fn, [-1, sh, 10000, 10000, "", 2, False, False], step_limit=BIG, covers=cov([sh], True, True)))
             L.append(ob("depth/%s/ops=all/shape=mix2/a=9999..10001/inner=\"a\"/hole=0/fullref" % tag, P, fn, [-1, 3, 9999, 10001, '"a"', 0, False, True], step_limit=BIG, covers=cov([3])))
     # ---- depth: WriteToken pushes then one call
     if q:
